@@ -52,6 +52,8 @@ type c11Run struct {
 	sourceGone         bool               // the source dataset of the focused copy job has been deleted (variant "source disappears")
 	oldAfterGone       int                // deliveries holding entities of the deleted incarnation since then
 	everTransform      map[string]bool    // job ids that have a transform in some definition of the scenario
+	tokReqs            int                // requests to the source that stamps every answer with a new token
+	tokByRun           map[uint64]int     // ... per goroutine asking
 }
 
 type c11Rec struct {
@@ -101,6 +103,23 @@ func (t c11Transport) RoundTrip(req *http.Request) (*http.Response, error) {
 	case "slow.sim":
 		time.Sleep(3 * time.Second)
 	}
+	if req.Method == http.MethodGet && req.URL.Hostname() == "tok.sim" {
+		// a source behind a layer that stamps every answer with a fresh continuation token, also the empty ones
+		gid := curGid()
+		t.r.mu.Lock()
+		t.r.tokReqs++
+		n := t.r.tokReqs
+		t.r.tokByRun[gid]++
+		k := t.r.tokByRun[gid]
+		if k == 60 {
+			t.r.fail(viol("C11", "hang", "run-polls-empty-pages", "one run of a job with an HttpDatasetSource has asked its source %d times in a row and got an empty page each time (each with a new continuation token): the run does not end", k))
+		}
+		t.r.mu.Unlock()
+		if k >= 60 {
+			return nil, errors.New("simulated connection failure")
+		}
+		return mk(200, []byte(fmt.Sprintf(`[{"id":"@context","namespaces":{}},{"id":"@continuation","token":"req-%d"}]`, n))), nil
+	}
 	if req.Method == http.MethodGet {
 		return mk(200, []byte(`[{"id":"@context","namespaces":{}}]`)), nil
 	}
@@ -127,6 +146,7 @@ func RunC11Scenario(sc *Scenario) (vd *Verdict) {
 		}
 		r.faultAt[f.At][f.Hit] = true
 	}
+	r.tokByRun = map[uint64]int{}
 	r.everTransform = map[string]bool{}
 	noteJob := func(op *Op) {
 		if op.K == "addJob" && op.M["transform"] != nil {
@@ -357,6 +377,7 @@ func (r *c11Run) installHooks() {
 			}
 			r.lastActivity = time.Now()
 			r.runOf[gid] = &c11Rec{id: id, start: time.Now()}
+			delete(r.tokByRun, gid)
 			r.active[id]++
 			r.started[id]++
 			r.lastStart[id] = time.Now()
